@@ -65,6 +65,13 @@ def run(ctx, rep):
         for hl in ((2,), ()) if not ctx.quick else ((2,),):
             specs.append(("MLPEAClassifier", dict(weights_optimizer=o, hidden_layers=hl, weights_optimizer_args=dict(keep_history=True), offset=ctx.rng.random() < 0.7), 3))
             specs.append(("MLPEARegressor", dict(weights_optimizer=o, hidden_layers=hl, weights_optimizer_args=dict(keep_history=True), offset=ctx.rng.random() < 0.7), 0))
+    # the stored weights must be the BEST EVER individual, not the best of the last population: a non-elitist
+    # generational weights optimizer that regularly loses its best individual
+    for sel in ("proportional", "rank", "proportional"):
+        specs.append(("MLPEARegressor", dict(weights_optimizer="GeneticAlgorithm", hidden_layers=(2,), offset=True,
+                                             weights_optimizer_args=dict(keep_history=True, elitism=False, selection=sel, mutation="strong")), 0))
+        specs.append(("MLPEAClassifier", dict(weights_optimizer="GeneticAlgorithm", hidden_layers=(), offset=True,
+                                              weights_optimizer_args=dict(keep_history=True, elitism=False, selection=sel, mutation="strong")), 3))
     for o in (gp_opts[:1] if ctx.quick else gp_opts):
         for w in (w_opts[:1] if ctx.quick else w_opts[:3]):
             specs.append(("GeneticProgrammingNeuralNetClassifier", dict(optimizer=o, weights_optimizer=w, weights_optimizer_args=dict(iters=2, pop_size=6),
@@ -74,6 +81,8 @@ def run(ctx, rep):
     for name, kw, ncls in specs:
         seed = ctx.rng.randrange(1 << 20)
         n_iter, pop = ctx.rng.randint(2, 3), ctx.rng.randint(7, 9)
+        if kw.get("weights_optimizer_args", {}).get("elitism") is False:
+            n_iter = 6
         if name.startswith("GeneticProgramming") and kw.get("optimizer") in ("SelfCGP", "PDPGP"):
             pop = max(pop, 8)
         d = ctx.rng.randint(2, 4)
@@ -119,6 +128,12 @@ def run(ctx, rep):
                             proba[:3].tolist(), np.asarray(exp_proba)[:3].tolist(), "C18_predict_is_eval")
             if np.any(proba < 0) or not np.allclose(proba.sum(axis=1), 1.0, atol=1e-9):
                 rep.problem("proba", "predict_proba rows are not non-negative rows summing to 1", where, "proba-rows", True, proba[:3].tolist(), None, "C18_proba_rows")
+            # any X: unscaled features of very different magnitude in one batch
+            Xbig = X * np.where(np.arange(len(X)) % 3 == 0, 2000.0, np.where(np.arange(len(X)) % 3 == 1, 1.0, -50.0)).reshape(-1, 1)
+            pb = np.asarray(m.predict_proba(Xbig))
+            if not np.all(np.isfinite(pb)) or np.any(pb < 0) or not np.allclose(pb.sum(axis=1), 1.0, atol=1e-9):
+                rep.problem("proba", "predict_proba rows on unscaled features are not non-negative rows summing to 1", where, "proba-rows-unscaled", True,
+                            pb[:4].tolist(), None, "C18_proba_rows")
             classes = list(m.classes_)
             exp_lab = [classes[int(j)] for j in np.argmax(proba, axis=1)]
             if list(pred) != exp_lab or any(p not in list(np.unique(y)) for p in pred):
